@@ -15,4 +15,4 @@ def search(tier, rng):
     n = 8000 if tier == 'quick' else 150000
     for k in range(n):
         fam = FAMILIES[k % len(FAMILIES)]
-        yield J('p_bbox', zoo_case(rng, fam, maxw=24))
+        yield J('p_bbox', zoo_case(rng, fam, maxw=24, dotted=True))
